@@ -41,6 +41,29 @@ fn main() {
                 std::process::exit(3);
             }
         }
+        "map-dump" => {
+            let gen_path = &args[2];
+            let gen_text = std::fs::read_to_string(gen_path).unwrap();
+            let map: Value = serde_json::from_str(&std::fs::read_to_string(format!("{gen_path}.map")).unwrap()).unwrap();
+            let dec = nqv::srcmap::decode_mappings(map["mappings"].as_str().unwrap()).unwrap();
+            let glines: Vec<&str> = gen_text.split('\n').collect();
+            let dir = std::path::Path::new(gen_path).parent().unwrap();
+            let sources: Vec<String> = map["sources"].as_array().unwrap().iter().map(|s| std::fs::read_to_string(dir.join(s.as_str().unwrap())).unwrap_or_default()).collect();
+            println!("sources {:?} names {:?} empty segments {}", map["sources"], map["names"], dec.empty_segments);
+            for s in dec.segs.iter().take(80) {
+                let g: String = glines.get(s.gen_line as usize).map(|l| { let u: Vec<u16> = l.encode_utf16().collect(); String::from_utf16_lossy(&u[(s.gen_col as usize).min(u.len())..]).chars().take(18).collect() }).unwrap_or_default();
+                let o = match s.src {
+                    Some((si, l, c)) => {
+                        let text = sources.get(si as usize).cloned().unwrap_or_default();
+                        let line = text.split('\n').nth(l as usize).unwrap_or("");
+                        let rest: String = line.chars().skip(c as usize).take(18).collect();
+                        format!("src{si} {l}:{c} {rest:?}")
+                    }
+                    None => "-".into(),
+                };
+                println!("gen {}:{} {g:?} -> {o} name {:?}", s.gen_line, s.gen_col, s.name.map(|n| map["names"][n as usize].clone()));
+            }
+        }
         "ts-parse" => {
             for f in &args[2..] {
                 let src = std::fs::read_to_string(f).unwrap();
